@@ -105,7 +105,9 @@ def error_sites(ctx: Context, v: FuncInfo):
         fs = []
         for (t, pol) in cfg.conditions_on_all_paths(nd.id):
             tn = flow.node_containing(t)
-            rt = _inline_attr_aliases(v, flow, t, tn)
+            # hoisted locals (`dynamic_mode = volume_variation is not None`, `periodic = self.periodic`) are inlined
+            rt = _Res(v.node).resolve(t, tn) if tn is not None else t
+            rt = _inline_attr_aliases(v, flow, rt, tn)
             fs += split_cond(rt, pol)
         return fs
 
@@ -165,10 +167,21 @@ def rule_a(ctx: Context, R: Reporter, cc: ClassInfo, v: FuncInfo):
             has_v = False
             clean = True
             for (a, p) in facts:
-                if isinstance(a, ast.BoolOp) and isinstance(a.op, ast.Or) and p:
-                    # a true disjunction: fine if some disjunct is the violation (the error also fires for the others)
-                    if any(viol(x, True) for x in a.values):
+                if isinstance(a, ast.BoolOp) and ((isinstance(a.op, ast.Or) and p) or (isinstance(a.op, ast.And) and not p)):
+                    # a true disjunction (`A or B`, or the negation of an earlier `A and B` test in an elif chain):
+                    # fine if some disjunct is the violation (the error also fires for the others), or if every
+                    # disjunct is background or contradicted by another fact of the path
+                    from ..util import split_cond as _sc
+
+                    dis = []
+                    for x in a.values:
+                        sx = _sc(x, p)
+                        dis += sx if len(sx) == 1 else [(x, p)]
+                    if any(viol(x, q) for (x, q) in dis):
                         has_v = True
+                        continue
+                    others = {(norm_text(b), q) for (b, q) in facts if b is not a}
+                    if all(background(x, q) or extra_ok(x, q) or (norm_text(x), not q) in others for (x, q) in dis):
                         continue
                     clean = False
                     continue
